@@ -124,12 +124,13 @@ Definition timetuple (t : Z) : struct_time :=
 
 (* a normalised civil time, as gmtime produces them (year range not included) *)
 Definition valid_date (y m d : Z) : Prop := 1 <= m <= 12 /\ 1 <= d <= days_in_month y m.
-Definition valid_tm (c : struct_time) : Prop :=
+(* all but tm_isdst *)
+Definition valid8 (c : struct_time) : Prop :=
   valid_date (tm_year c) (tm_mon c) (tm_mday c) /\
   0 <= tm_hour c < 24 /\ 0 <= tm_min c < 60 /\ 0 <= tm_sec c < 60 /\
   tm_wday c = (ordinal (tm_year c) (tm_mon c) (tm_mday c) + 6) mod 7 /\
-  tm_yday c = days_before_month (tm_year c) (tm_mon c) + tm_mday c /\
-  tm_isdst c = 0.
+  tm_yday c = days_before_month (tm_year c) (tm_mon c) + tm_mday c.
+Definition valid_tm (c : struct_time) : Prop := valid8 c /\ tm_isdst c = 0.
 
 (* ---------- characters ---------- *)
 Open Scope N_scope.
